@@ -15,13 +15,17 @@
 //         Each buffer is freed when the loader drops it, as a real client's file buffer is; afterwards
 //         every string reachable from the Manifest is read (dangling references become ASan reports).
 //
-// The "file system" is finite: readFile() fails (returns null, as for a file that cannot be opened)
-// for unknown names and after maxLoads() loads in one run (default 1200, environment FZ_MAX_LOADS),
-// which bounds the work that include fan-out can legitimately cause (two self-includes per file would
-// otherwise mean 2^depth parses). It does NOT bound include depth below that budget: checks/c19.py
-// runs this target with a 1 MB stack (`ulimit -s 1024`), where unbounded recursion in the loader
-// overflows the stack after about 750 nested files, i.e. inside the budget; every stack-overflow
-// artifact is then confirmed with the default 8 MB stack and FZ_MAX_LOADS=1000000 before it counts.
+// The "file system" is finite and small, so that one execution stays cheap: readFile() fails (returns
+// null, as for a file that cannot be opened) for unknown names, when kMaxDepth (16) files are already
+// open, and after kMaxLoads (64) loads in one run. That bounds the work include fan-out can legitimately
+// cause (two self-includes per file would otherwise mean 2^depth parses).
+//
+// Pass C  Only when pass B was refused a file for depth: the same table is loaded again by a file system
+//         that serves exactly ONE descending chain (a load succeeds only while no file has been closed
+//         yet), without a depth limit of its own up to maxChain() loads (default 100000, environment
+//         FZ_MAX_CHAIN). Work is linear in the depth the LOADER allows; a loader that recurses without
+//         bound on a file that (directly or indirectly) includes itself exhausts the stack, which
+//         checks/c19.py fixes at the usual 8 MB (`ulimit -s 8192`).
 #include "fz_common.h"
 
 #include "llbuild/Ninja/Lexer.h"
@@ -40,15 +44,18 @@ using namespace llbuild::ninja;
 namespace {
 
 const size_t kMaxFiles = 16;
-size_t maxLoads() {
+const size_t kMaxDepth = 16;
+const size_t kMaxLoads = 64;
+size_t maxChain() {
   static size_t v = 0;
   if (!v) {
-    const char* e = getenv("FZ_MAX_LOADS");
+    const char* e = getenv("FZ_MAX_CHAIN");
     v = e ? strtoull(e, nullptr, 10) : 0;
-    if (!v) v = 1200;
+    if (!v) v = 100000;
   }
   return v;
 }
+size_t g_open = 0;  // TableBuffers currently alive = files the loader has open
 const char kMarker[] = "#@file ";
 const size_t kMarkerLen = sizeof(kMarker) - 1;
 
@@ -125,18 +132,20 @@ public:
     if (n) memcpy(mem, content.data(), n);
     mem[n] = 0;
     init(mem, mem + n, /*RequiresNullTerminator=*/true);
+    ++g_open;
   }
-  ~TableBuffer() override { delete[] mem; }
+  ~TableBuffer() override { delete[] mem; --g_open; }
   StringRef getBufferIdentifier() const override { return name; }
   BufferKind getBufferKind() const override { return MemoryBuffer_Malloc; }
 };
 
 struct LoaderActions : public ManifestLoaderActions {
   const std::vector<File>& files;
+  const bool chainMode;
   ManifestLoader* loader = nullptr;
-  size_t loads = 0, refused = 0, unknown = 0, errors = 0;
+  size_t loads = 0, refusedDepth = 0, refusedBudget = 0, unknown = 0, errors = 0, deepest = 0;
 
-  explicit LoaderActions(const std::vector<File>& files) : files(files) {}
+  LoaderActions(const std::vector<File>& files, bool chainMode) : files(files), chainMode(chainMode) {}
 
   void initialize(ManifestLoader* l) override { loader = l; }
 
@@ -151,13 +160,22 @@ struct LoaderActions : public ManifestLoaderActions {
     fz::touch(path.data(), path.size());
     fz::touch(forFilename.data(), forFilename.size());
     if (forToken) readToken(*forToken);
-    if (loads >= maxLoads()) { ++refused; return nullptr; }
+    if (chainMode) {
+      // one descending chain: succeed only while nothing has been closed yet
+      if (g_open != deepest) { ++refusedDepth; return nullptr; }
+      if (loads >= maxChain()) { ++refusedBudget; return nullptr; }
+    } else {
+      if (g_open >= kMaxDepth) { ++refusedDepth; return nullptr; }
+      if (loads >= kMaxLoads) { ++refusedBudget; return nullptr; }
+    }
     StringRef rel = path;
     if (rel.startswith("/w/")) rel = rel.substr(3);
     for (const File& f : files) {
       if (StringRef(f.name) == rel || StringRef(f.name) == path) {
         ++loads;
-        return std::unique_ptr<llvm::MemoryBuffer>(new TableBuffer(f.content, path));
+        std::unique_ptr<llvm::MemoryBuffer> b(new TableBuffer(f.content, path));
+        if (g_open > deepest) deepest = g_open;
+        return b;
       }
     }
     ++unknown;
@@ -214,8 +232,22 @@ extern "C" int LLVMFuzzerTestOneInput(const uint8_t* data, size_t size) {
     parser.parse();
   }
 
+  bool depthRefused = false;
   {  // pass B
-    LoaderActions actions(files);
+    g_open = 0;
+    LoaderActions actions(files, /*chainMode=*/false);
+    std::unique_ptr<Manifest> manifest;
+    {
+      ManifestLoader loader("/w", "build.ninja", actions);
+      manifest = loader.load();
+    }
+    if (manifest) walk(*manifest);
+    depthRefused = actions.refusedDepth != 0;
+  }
+
+  if (depthRefused) {  // pass C
+    g_open = 0;
+    LoaderActions actions(files, /*chainMode=*/true);
     std::unique_ptr<Manifest> manifest;
     {
       ManifestLoader loader("/w", "build.ninja", actions);
